@@ -71,7 +71,7 @@ def main():
                 results.append((m["name"], "PATTERN-ERROR"))
                 continue
             feats = m.get("features", [])
-            rc, out = sh(["cargo", "check", "--offline", "--lib", "--tests"] + feats, cwd=dst, env={"CARGO_TARGET_DIR": os.path.join(tmp, "t")})
+            rc, out = sh(["cargo"] + ([m["toolchain"]] if m.get("toolchain") else []) + ["check", "--offline", "--lib", "--tests"] + feats, cwd=dst, env={"CARGO_TARGET_DIR": os.path.join(tmp, "t")})
             if rc != 0:
                 print("!! %s: does not compile\n%s" % (m["name"], out[-1500:]))
                 results.append((m["name"], "NO-COMPILE"))
